@@ -96,17 +96,133 @@ type symEnv struct {
 }
 
 type frame struct {
-	c      *Ctx
-	fn     *ssa.Function
-	env    *symEnv
-	k      *an.Walk
-	mem    map[string]string // symbolic memory of local allocations on this path
-	nodes  map[ssa.Value]*Node
-	optsV  map[ssa.Value]bool
-	getter *getOpts
-	loopOf []string // origin of the collection of each enclosing range loop
-	notes  []string
-	elem   map[ssa.Value]string
+	c          *Ctx
+	fn         *ssa.Function
+	env        *symEnv
+	k          *an.Walk
+	mem        map[string]string // symbolic memory of local allocations on this path
+	nodes      map[ssa.Value]*Node
+	optsV      map[ssa.Value]bool
+	getter     *getOpts
+	loopOf     []string // origin of the collection of each enclosing range loop
+	notes      []string
+	elem       map[ssa.Value]string
+	tuples     map[ssa.Value][]string // results of interpreted calls
+	g          *guide
+	cache      map[ssa.Value]string // value of each executed instruction at the time it ran
+	loopVisits map[*ssa.BasicBlock]int
+}
+
+// guide steers a success-seeking walk (decode side): branches from which only
+// one successor can still reach a success return are forced; genuine forks
+// are enumerated by the caller through the decide map.
+type guide struct {
+	decide  map[*ssa.If]int
+	fork    *ssa.If
+	reach   map[*ssa.Function]map[*ssa.BasicBlock]bool
+	opaque  map[string]bool // callees (FuncKey) that are not inlined
+	asserts []string        // recorded (*packet).assert events
+	trace   []guideDecision // forks decided on this path
+	paths   int
+}
+
+// successReach: blocks of fn from which a return with a nil error (or any
+// return when fn has no error result) is reachable.
+func (g *guide) successReach(fn *ssa.Function) map[*ssa.BasicBlock]bool {
+	if r, ok := g.reach[fn]; ok {
+		return r
+	}
+	ei := errResultIndex(fn)
+	r := map[*ssa.BasicBlock]bool{}
+	var work []*ssa.BasicBlock
+	for _, ret := range an.Returns(fn) {
+		ok := true
+		if ei >= 0 {
+			res := an.ReturnResults(ret)
+			ok = an.IsNilConst(an.Strip(res[ei]))
+		}
+		if ok && !r[ret.Block()] {
+			r[ret.Block()] = true
+			work = append(work, ret.Block())
+		}
+	}
+	for len(work) > 0 {
+		b := work[len(work)-1]
+		work = work[:len(work)-1]
+		for _, p := range b.Preds {
+			if !r[p] {
+				r[p] = true
+				work = append(work, p)
+			}
+		}
+	}
+	g.reach[fn] = r
+	return r
+}
+
+func (f *frame) choose(iff *ssa.If, k *an.Walk) int {
+	g := f.g
+	if g == nil {
+		return -1
+	}
+	f.k = k
+	r := g.successReach(iff.Parent())
+	s0, s1 := r[iff.Block().Succs[0]], r[iff.Block().Succs[1]]
+	switch {
+	case s0 && !s1:
+		return 0
+	case s1 && !s0:
+		return 1
+	}
+	// decided by what is known symbolically: nil tests of values we know
+	cond, neg := an.Not(iff.Cond)
+	if x, trueMeansNil, ok := an.NilCheck(cond); ok {
+		sx := f.sym(x)
+		known, isNil := false, false
+		if sx == "nil" {
+			known, isNil = true, true
+		} else if strings.HasPrefix(sx, "&alloc:") {
+			known, isNil = true, false
+		}
+		if known {
+			v := (isNil == trueMeansNil) != neg
+			if v {
+				return 0
+			}
+			return 1
+		}
+	}
+	if d, ok := g.decide[iff]; ok {
+		name, aneg := an.CanonAtom(iff.Cond)
+		_ = name
+		// symbolic rendering of the condition, for feasibility filtering by the rule
+		cs := f.condString(iff.Cond)
+		g.trace = append(g.trace, guideDecision{Cond: cs, True: (d == 0), Neg: aneg})
+		return d
+	}
+	g.fork = iff
+	return -2
+}
+
+type guideDecision struct {
+	Cond string // symbolic condition as written (after stripping !)
+	True bool   // the If's condition evaluated to true on this path
+	Neg  bool
+}
+
+// condString renders a branch condition symbolically: "op(a,b)".
+func (f *frame) condString(c ssa.Value) string {
+	inner, neg := an.Not(c)
+	s := ""
+	if bo, ok := inner.(*ssa.BinOp); ok {
+		s = bo.Op.String() + "(" + f.sym(bo.X) + "," + f.sym(bo.Y) + ")"
+	} else {
+		s = f.sym(inner)
+	}
+	if neg {
+		s = "!" + s
+	}
+	return s
 }
 
 var dollarRE = regexp.MustCompile(`\$\$?\d+`)
@@ -235,6 +351,21 @@ func (f *frame) memKey(addr ssa.Value) (string, bool) {
 				return k + "." + an.FieldAddrName(a), true
 			}
 		}
+		// base known symbolically as the address of an imported / local object
+		if sx, ok := f.elem[a.X]; ok && strings.HasPrefix(sx, "&alloc:") {
+			return sx[1:] + "." + an.FieldAddrName(a), true
+		}
+		if ex, ok := a.X.(*ssa.Extract); ok {
+			if tup, ok := f.tuples[ex.Tuple]; ok && ex.Index < len(tup) && strings.HasPrefix(tup[ex.Index], "&alloc:") {
+				return tup[ex.Index][1:] + "." + an.FieldAddrName(a), true
+			}
+		}
+	case *ssa.IndexAddr:
+		if al, ok := a.X.(*ssa.Alloc); ok {
+			if k, ok := an.IntConst(a.Index); ok {
+				return fmt.Sprintf("alloc:%s[%d]", al.Name(), k), true
+			}
+		}
 	case *ssa.Alloc:
 		return "alloc:" + a.Name(), true
 	}
@@ -242,6 +373,136 @@ func (f *frame) memKey(addr ssa.Value) (string, bool) {
 }
 
 func (f *frame) symd(v ssa.Value, d int) string {
+	if c, ok := f.cache[v]; ok && d > 0 {
+		return c
+	}
+	r := f.symd0(v, d)
+	if strings.Contains(r, "alloc:") {
+		r = f.norm(r)
+	} else if strings.Contains(r, "struct{") {
+		r = selectStructField(r)
+	}
+	return r
+}
+
+var allocTok = regexp.MustCompile(`&?alloc:[A-Za-z0-9_$@/]+(\.[A-Za-z_][A-Za-z0-9_]*)+`)
+
+// norm resolves references to fields of local objects that are known in the
+// symbolic memory: "alloc:t9.Packet.Children" with mem[alloc:t9.Packet] = X
+// becomes "X.Children".
+// selectStructField rewrites "struct{a=X; b=Y}.a" to "X".
+func selectStructField(s string) string {
+	for iter := 0; iter < 50; iter++ {
+		i := strings.Index(s, "struct{")
+		found := false
+		for i >= 0 {
+			// matching brace
+			depth := 0
+			j := i + len("struct{") - 1
+			end := -1
+			for p := j; p < len(s); p++ {
+				if s[p] == '{' {
+					depth++
+				} else if s[p] == '}' {
+					depth--
+					if depth == 0 {
+						end = p
+						break
+					}
+				}
+			}
+			if end < 0 {
+				break
+			}
+			if end+1 < len(s) && s[end+1] == '.' {
+				// selected field name
+				q := end + 2
+				for q < len(s) && (s[q] == '_' || s[q] >= 'a' && s[q] <= 'z' || s[q] >= 'A' && s[q] <= 'Z' || s[q] >= '0' && s[q] <= '9') {
+					q++
+				}
+				name := s[end+2 : q]
+				body := s[j+1 : end]
+				// split top-level "; "
+				var parts []string
+				d2, last := 0, 0
+				for p := 0; p < len(body); p++ {
+					switch body[p] {
+					case '{', '(', '[':
+						d2++
+					case '}', ')', ']':
+						d2--
+					case ';':
+						if d2 == 0 {
+							parts = append(parts, strings.TrimSpace(body[last:p]))
+							last = p + 1
+						}
+					}
+				}
+				parts = append(parts, strings.TrimSpace(body[last:]))
+				val, ok := "", false
+				for _, pt := range parts {
+					if strings.HasPrefix(pt, name+"=") {
+						val, ok = pt[len(name)+1:], true
+					}
+				}
+				if ok {
+					s = s[:i] + val + s[q:]
+					found = true
+					break
+				}
+			}
+			nx := strings.Index(s[i+1:], "struct{")
+			if nx < 0 {
+				break
+			}
+			i = i + 1 + nx
+		}
+		if !found {
+			break
+		}
+	}
+	return s
+}
+
+func (f *frame) norm(s string) string {
+	s = selectStructField(s)
+	for i := 0; i < 8; i++ {
+		changed := false
+		s = allocTok.ReplaceAllStringFunc(s, func(m string) string {
+			amp := strings.HasPrefix(m, "&")
+			body := strings.TrimPrefix(m, "&")
+			// longest prefix that is a mem key
+			parts := strings.Split(body, ".")
+			for n := len(parts); n >= 2; n-- {
+				key := strings.Join(parts[:n], ".")
+				if mv, ok := f.mem[key]; ok {
+					rest := ""
+					if n < len(parts) {
+						rest = "." + strings.Join(parts[n:], ".")
+					}
+					if rest != "" {
+						mv = strings.TrimPrefix(mv, "&")
+					}
+					if amp && rest != "" {
+						return m // address of a sub-field: leave
+					}
+					if amp {
+						return m
+					}
+					changed = true
+					return mv + rest
+				}
+			}
+			return m
+		})
+		if !changed {
+			break
+		}
+	}
+	return s
+}
+
+func (f *frame) symd0(v ssa.Value, d int) string {
 	if d > 30 {
 		return "?"
 	}
@@ -273,22 +534,61 @@ func (f *frame) symd(v ssa.Value, d int) string {
 				if mv, ok := f.mem[k]; ok {
 					return mv
 				}
+				// whole local struct: render its known fields
+				if _, isStruct := x.Type().Underlying().(*types.Struct); isStruct {
+					out := map[string]string{}
+					f.fieldsOf(k, "", out, 0)
+					if len(out) > 0 {
+						var parts []string
+						for _, fk := range sortedKeys(out) {
+							parts = append(parts, fk+"="+out[fk])
+						}
+						return "struct{" + strings.Join(parts, "; ") + "}"
+					}
+				}
+				if _, isFld := x.X.(*ssa.FieldAddr); isFld && !f.optsV[x.X.(*ssa.FieldAddr).X] {
+					if _, isOpt := f.optsField(x); !isOpt {
+						return "zero"
+					}
+				}
 			}
 			if fld, ok := f.optsField(x); ok {
 				return f.optValue(fld, x.Type())
 			}
+			// single-assignment variable cell
+			if sv := an.Strip(x); sv != ssa.Value(x) {
+				return f.symd(sv, d+1)
+			}
+			switch a := x.X.(type) {
+			case *ssa.FieldAddr:
+				base := f.symd(a.X, d+1)
+				base = strings.TrimPrefix(base, "&")
+				return base + "." + an.FieldAddrName(a)
+			case *ssa.IndexAddr:
+				base := strings.TrimPrefix(f.symd(a.X, d+1), "&")
+				idx := "*"
+				if !an.IsRangeIdx(a.Index) {
+					idx = f.symd(a.Index, d+1)
+				}
+				return base + "[" + idx + "]"
+			}
 			// *(&e) == e
 			inner := f.symd(x.X, d+1)
+			if strings.HasPrefix(inner, "&alloc:") {
+				if _, isStruct := x.Type().Underlying().(*types.Struct); isStruct {
+					out := map[string]string{}
+					f.fieldsOf(inner[1:], "", out, 0)
+					var parts []string
+					for _, fk := range sortedKeys(out) {
+						parts = append(parts, fk+"="+out[fk])
+					}
+					return "struct{" + strings.Join(parts, "; ") + "}"
+				}
+			}
 			if strings.HasPrefix(inner, "&") {
 				return inner[1:]
 			}
-			if _, isAddr := x.X.(*ssa.FieldAddr); isAddr {
-				return f.substitute(an.Canon(x))
-			}
-			if _, isAddr := x.X.(*ssa.IndexAddr); isAddr {
-				return f.substitute(an.Canon(x))
-			}
-			return f.substitute(an.Canon(x))
+			return inner + ".*"
 		}
 	case *ssa.Field:
 		if fld, ok := f.optsField(x); ok {
@@ -301,6 +601,37 @@ func (f *frame) symd(v ssa.Value, d int) string {
 		}
 		return "&" + f.substitute(an.Canon(&ssa.UnOp{Op: token.MUL, X: x}))
 	case *ssa.Call:
+		if b, ok := x.Common().Value.(*ssa.Builtin); ok && b.Name() == "append" {
+			base := f.symd(x.Common().Args[0], d+1)
+			var elems []string
+			if sl, ok := x.Common().Args[1].(*ssa.Slice); ok {
+				if al, ok := sl.X.(*ssa.Alloc); ok {
+					if at, ok := al.Type().(*types.Pointer).Elem().(*types.Array); ok {
+						for i := int64(0); i < at.Len(); i++ {
+							if mv, ok := f.mem[fmt.Sprintf("alloc:%s[%d]", al.Name(), i)]; ok {
+								elems = append(elems, mv)
+							} else {
+								elems = append(elems, "?")
+							}
+						}
+					}
+				}
+			}
+			if elems == nil {
+				elems = []string{"..." + f.symd(x.Common().Args[1], d+1)}
+			}
+			if f.k != nil && f.k.InLoop > 0 && len(f.loopOf) > 0 && (base == "empty" || base == "nil" || base == "zero" || base == "nil:[]") {
+				return "list(" + f.loopOf[len(f.loopOf)-1] + " => " + strings.Join(elems, ",") + ")"
+			}
+			return "append(" + base + "," + strings.Join(elems, ",") + ")"
+		}
+		if b, ok := x.Common().Value.(*ssa.Builtin); ok {
+			var as []string
+			for _, a := range x.Common().Args {
+				as = append(as, f.symd(a, d+1))
+			}
+			return b.Name() + "(" + strings.Join(as, ",") + ")"
+		}
 		// function returning the address of its parameter's private copy: intPtr(x) == &x
 		if callee := x.Common().StaticCallee(); callee != nil && an.InModule(callee) && len(callee.Blocks) == 1 && len(callee.Params) == 1 {
 			rets := an.Returns(callee)
@@ -337,7 +668,42 @@ func (f *frame) symd(v ssa.Value, d int) string {
 			return f.symd(cc.Value, d+1) + "." + cc.Method.Name() + "(" + strings.Join(as, ",") + ")"
 		}
 	case *ssa.Extract:
+		if tup, ok := f.tuples[x.Tuple]; ok && x.Index < len(tup) {
+			return tup[x.Index]
+		}
+		if ta, ok := x.Tuple.(*ssa.TypeAssert); ok {
+			return fmt.Sprintf("assert(%s,%s)#%d", f.symd(ta.X, d+1), types.TypeString(ta.AssertedType, shortq), x.Index)
+		}
+		if nx, ok := x.Tuple.(*ssa.Next); ok {
+			if rg, ok := nx.Iter.(*ssa.Range); ok {
+				return fmt.Sprintf("range(%s)#%d", f.symd(rg.X, d+1), x.Index)
+			}
+		}
 		return f.symd(x.Tuple, d+1) + fmt.Sprintf("#%d", x.Index)
+	case *ssa.TypeAssert:
+		return "assert(" + f.symd(x.X, d+1) + "," + types.TypeString(x.AssertedType, shortq) + ")"
+	case *ssa.MakeSlice:
+		if k, ok := an.IntConst(x.Len); ok && k == 0 {
+			return "empty"
+		}
+		return "make(" + f.symd(x.Len, d+1) + ")"
+	case *ssa.Slice:
+		if x.Low == nil && x.High == nil {
+			return f.symd(x.X, d+1) + "[:]"
+		}
+		lo, hi := "", ""
+		if x.Low != nil {
+			lo = f.symd(x.Low, d+1)
+		}
+		if x.High != nil {
+			hi = f.symd(x.High, d+1)
+		}
+		return strings.TrimPrefix(f.symd(x.X, d+1), "&") + "[" + lo + ":" + hi + "]"
+	case *ssa.Index:
+		return f.symd(x.X, d+1) + "[" + f.symd(x.Index, d+1) + "]"
+	case *ssa.BinOp:
+		a, b := f.symd(x.X, d+1), f.symd(x.Y, d+1)
+		return x.Op.String() + "(" + a + "," + b + ")"
 	case *ssa.Parameter, *ssa.FreeVar, *ssa.Global:
 		return f.substitute(an.Canon(x))
 	case *ssa.Alloc:
@@ -403,6 +769,13 @@ func (f *frame) memNode(al *ssa.Alloc) (*Node, bool) {
 // event interprets one instruction of the walked path.
 func (f *frame) event(in ssa.Instruction, k *an.Walk) {
 	f.k = k
+	defer func() {
+		if v, ok := in.(ssa.Value); ok {
+			if _, isAlloc := in.(*ssa.Alloc); !isAlloc {
+				f.cache[v] = f.symd(v, 0)
+			}
+		}
+	}()
 	switch x := in.(type) {
 	case *ssa.Store:
 		if key, ok := f.memKey(x.Addr); ok {
@@ -435,7 +808,15 @@ func (f *frame) event(in ssa.Instruction, k *an.Walk) {
 					}
 				}
 			}
-			f.loopOf = append(f.loopOf, coll)
+			if f.loopVisits == nil {
+				f.loopVisits = map[*ssa.BasicBlock]int{}
+			}
+			f.loopVisits[x.Block()]++
+			if f.loopVisits[x.Block()]%2 == 1 {
+				f.loopOf = append(f.loopOf, coll)
+			} else if len(f.loopOf) > 0 {
+				f.loopOf = f.loopOf[:len(f.loopOf)-1]
+			}
 		}
 	case *ssa.Call:
 		f.call(x, k)
@@ -496,6 +877,78 @@ func (f *frame) call(x *ssa.Call, k *an.Walk) {
 			if n := f.nodeOf(base); n != nil {
 				n.Writes = append(n.Writes, "Data.Write("+f.sym(cc.Args[1])+")")
 			}
+		}
+		return
+	}
+	if f.g != nil && callee != nil && key == G+".(*packet).assert" {
+		S := f.c.opts()
+		ev := "assert(" + f.norm(strings.TrimPrefix(f.sym(cc.Args[0]), "&")+".Packet")
+		cl, _ := an.IntConst(cc.Args[1])
+		ty, _ := an.IntConst(cc.Args[2])
+		tag, child := "", ""
+		if list, ok := S.variadicOptions(cc.Args[3]); ok {
+			for _, o := range list {
+				switch o.Ctor.Fn.Name() {
+				case "withTag":
+					if k, ok := an.IntConst(o.Args[0]); ok {
+						tag = fmt.Sprint(k)
+						if cl == 0 {
+							if n, ok := uniTags[k]; ok {
+								tag = n
+							}
+						}
+					}
+				case "withAssertChild":
+					child = f.sym(o.Args[0])
+					if an.IsRangeIdx(o.Args[0]) {
+						child = "*"
+					}
+				case "withMinChildren":
+					ev += " min=" + f.sym(o.Args[0])
+				case "withLenChildren":
+					ev += " len=" + f.sym(o.Args[0])
+				}
+			}
+		} else {
+			ev += " opts=?"
+		}
+		if child != "" {
+			ev += ".Children[" + child + "]"
+		}
+		ev += " is " + classNames[cl] + " " + typeNames[ty]
+		if tag != "" {
+			ev += " " + tag
+		}
+		ev += ")"
+		f.g.asserts = append(f.g.asserts, ev)
+		// the assert succeeded on this path: nothing else to model
+		f.tuples[x] = []string{"nil"}
+		f.elem[x] = "nil"
+		return
+	}
+	if f.g != nil && callee != nil && an.InModule(callee) && len(callee.Blocks) > 0 && !f.g.opaque[key] && f.env.depth < 8 {
+		sub := f.c.interpCall(callee, x, f)
+		if f.g.fork != nil {
+			k.Undecided = "fork"
+			return
+		}
+		if sub != nil && sub.undec == "" {
+			pre := "alloc:" + callee.Name() + "@" + x.Name() + "/"
+			ren := func(e string) string { return strings.ReplaceAll(e, "alloc:", pre) }
+			for mk, mv := range sub.fr.mem {
+				f.mem[ren(mk)] = ren(mv)
+			}
+			var tup []string
+			for _, e := range sub.retExpr {
+				tup = append(tup, ren(e))
+			}
+			f.tuples[x] = tup
+			if len(tup) == 1 {
+				f.elem[x] = tup[0]
+			}
+			f.notes = append(f.notes, sub.notes...)
+		} else if sub != nil {
+			f.notes = append(f.notes, "callee "+an.ShortName(callee)+": "+sub.undec)
 		}
 		return
 	}
@@ -599,12 +1052,15 @@ func (c *Ctx) interpCall(callee *ssa.Function, call *ssa.Call, caller *frame) *i
 			}
 		}
 	}
+	if caller.g != nil {
+		return c.interpG(callee, env, map[string]bool{}, pass, caller.g)
+	}
 	w := &an.Walker{Fn: callee}
 	atoms := w.CondAtoms()
 	val := map[string]bool{}
 	if len(atoms) > 0 {
 		// atoms that the calling context decides: nil tests of option fields
-		probe := &frame{c: c, fn: callee, env: env, mem: map[string]string{}, nodes: map[ssa.Value]*Node{}, optsV: map[ssa.Value]bool{}, elem: map[ssa.Value]string{}}
+		probe := &frame{c: c, fn: callee, env: env, mem: map[string]string{}, nodes: map[ssa.Value]*Node{}, optsV: map[ssa.Value]bool{}, elem: map[ssa.Value]string{}, tuples: map[ssa.Value][]string{}, cache: map[ssa.Value]string{}}
 		probe.findOpts()
 		decided := map[string]bool{}
 		an.Instrs(callee, func(in ssa.Instruction) {
@@ -636,15 +1092,22 @@ func (c *Ctx) interpCall(callee *ssa.Function, call *ssa.Call, caller *frame) *i
 
 // interp walks fn under a valuation and returns the packet tree it returns.
 func (c *Ctx) interp(fn *ssa.Function, env *symEnv, val map[string]bool, pass map[ssa.Value]*Node) *interpResult {
+	return c.interpG(fn, env, val, pass, nil)
+}
+
+func (c *Ctx) interpG(fn *ssa.Function, env *symEnv, val map[string]bool, pass map[ssa.Value]*Node, g *guide) *interpResult {
 	if env == nil {
 		env = &symEnv{}
 	}
-	fr := &frame{c: c, fn: fn, env: env, mem: map[string]string{}, nodes: map[ssa.Value]*Node{}, optsV: map[ssa.Value]bool{}, elem: map[ssa.Value]string{}}
+	fr := &frame{c: c, fn: fn, env: env, mem: map[string]string{}, nodes: map[ssa.Value]*Node{}, optsV: map[ssa.Value]bool{}, elem: map[ssa.Value]string{}, tuples: map[ssa.Value][]string{}, g: g, cache: map[ssa.Value]string{}}
 	for k, v := range pass {
 		fr.nodes[k] = v
 	}
 	fr.findOpts()
 	w := &an.Walker{Fn: fn, Event: fr.event}
+	if g != nil {
+		w.Choose = fr.choose
+	}
 	k := w.Run(val)
 	res := &interpResult{fr: fr, notes: fr.notes}
 	if k.Undecided != "" {
@@ -754,4 +1217,42 @@ func (f *frame) optionList(v ssa.Value, depth int) ([]optCall, bool) {
 		}
 	}
 	return nil, false
+}
+
+// guidedPaths enumerates the success paths of fn (and of the callees it
+// inlines): forced branches are followed, genuine forks explored both ways.
+type guidedPath struct {
+	Res     *interpResult
+	Asserts []string
+	Decided map[*ssa.If]int
+	Trace   []guideDecision
+}
+
+func (c *Ctx) guidedPaths(fn *ssa.Function, env *symEnv, opaque map[string]bool, limit int) ([]guidedPath, bool) {
+	var out []guidedPath
+	complete := true
+	reach := map[*ssa.Function]map[*ssa.BasicBlock]bool{}
+	var rec func(decide map[*ssa.If]int)
+	rec = func(decide map[*ssa.If]int) {
+		if len(out) >= limit {
+			complete = false
+			return
+		}
+		g := &guide{decide: decide, reach: reach, opaque: opaque}
+		r := c.interpG(fn, env, map[string]bool{}, nil, g)
+		if g.fork != nil {
+			for i := 0; i < 2; i++ {
+				d2 := map[*ssa.If]int{}
+				for k, v := range decide {
+					d2[k] = v
+				}
+				d2[g.fork] = i
+				rec(d2)
+			}
+			return
+		}
+		out = append(out, guidedPath{Res: r, Asserts: g.asserts, Decided: decide, Trace: g.trace})
+	}
+	rec(map[*ssa.If]int{})
+	return out, complete
 }
